@@ -210,8 +210,19 @@ def setup(M):
             judge_bound(M, name, a[0], unit, ret, first)
         return post
 
-    M.contract(DateTime, "start_of", post=mk("dt.start_of", True), label="DateTime.start_of")
-    M.contract(DateTime, "end_of", post=mk("dt.end_of", False), label="DateTime.end_of")
+    def raised(name):
+        def exc(e, a, k, snap):
+            x = a[0]
+            unit = a[1] if len(a) > 1 else k.get("unit")
+            # a century needs 100 years of room; everything else here is far from the ends of the range
+            if unit not in UNITS or not (200 <= x.year <= 9800):
+                return
+            M.check(name, False, f"C12/{name.split('.')[-1]}:{_ug(unit)}:raised-{type(e).__name__}", f"{name}({unit}) raised for a value far from the ends of the range",
+                    x=repr(x), exc=repr(e)[:120])
+        return exc
+
+    M.contract(DateTime, "start_of", post=mk("dt.start_of", True), exc=raised("dt.start_of"), label="DateTime.start_of")
+    M.contract(DateTime, "end_of", post=mk("dt.end_of", False), exc=raised("dt.end_of"), label="DateTime.end_of")
 
     def mkd(name, first):
         def post(ret, a, k, snap):
@@ -244,8 +255,8 @@ def setup(M):
                     "Date start_of/end_of does not delimit the unit", x=repr(x), unit=unit, got=repr(ret), week_starts_at=ws)
         return post
 
-    M.contract(Date, "start_of", post=mkd("date.start_of", True), label="Date.start_of")
-    M.contract(Date, "end_of", post=mkd("date.end_of", False), label="Date.end_of")
+    M.contract(Date, "start_of", post=mkd("date.start_of", True), exc=raised("date.start_of"), label="Date.start_of")
+    M.contract(Date, "end_of", post=mkd("date.end_of", False), exc=raised("date.end_of"), label="Date.end_of")
     if M.spec.get("suite"):
         return
     n = 0
